@@ -221,75 +221,79 @@ Section RT.
   Variable crlf : bool.
   Let eol := eol_of crlf.
   Let sp1 := space1_complete.
-  Variable sep : str.
-  Hypothesis Hsep : sep_ok sep = true.
 
   (* ---- the alphabet line ---- *)
 
   Lemma sym_not_blank c k : sym_index al c = Some k -> is_blank c = false.
   Proof. destruct al; destruct c; simpl; intros H; try discriminate; reflexivity. Qed.
 
-  Lemma space1_sep c tl : is_blank c = false -> sp1 (sep ++ c :: tl) = POk sep (c :: tl).
+  Lemma space1_sep sep c tl : sep_ok sep = true -> is_blank c = false -> sp1 (sep ++ c :: tl) = POk sep (c :: tl).
   Proof.
-    intros H. destruct (sep_ok_parts sep Hsep) as (Hne & Hb & _). unfold sp1, space1_complete.
+    intros Hsep H. destruct (sep_ok_parts sep Hsep) as (Hne & Hb & _). unfold sp1, space1_complete.
     rewrite (span_block is_blank sep (c :: tl) Hb H). destruct sep; [congruence|reflexivity].
   Qed.
 
-  Definition sym_text (syms : str) : str := flat_map (fun c => sep ++ [c]) syms.
+  Definition sym_text (syms : list (str * byte)) : str := flat_map (fun sc => fst sc ++ [snd sc]) syms.
 
-  Lemma sym_text_cons c cs X : sym_text (c :: cs) ++ X = sep ++ c :: (sym_text cs ++ X).
-  Proof. unfold sym_text. cbn [flat_map]. rewrite <- !app_assoc. reflexivity. Qed.
+  Lemma sym_text_cons sep c cs X : sym_text ((sep, c) :: cs) ++ X = sep ++ c :: (sym_text cs ++ X).
+  Proof. unfold sym_text. cbn [flat_map fst snd]. rewrite <- !app_assoc. reflexivity. Qed.
 
   Lemma sep_loop_syms : forall syms idx fuel acc tl,
-    sym_indices al syms = Some idx ->
+    sym_indices al (sym_letters syms) = Some idx -> forallb (fun sc => sep_ok (fst sc)) syms = true ->
     length (sym_text syms ++ eol ++ tl) < fuel ->
     sep_loop sp1 (parse_symbol al) fuel (sym_text syms ++ eol ++ tl) acc = POk (rev acc ++ idx) (eol ++ tl).
   Proof.
-    induction syms as [|c cs IH]; intros idx fuel acc tl Hs L.
+    induction syms as [|[sep c] cs IH]; intros idx fuel acc tl Hs Hseps L.
     - simpl in Hs. inversion Hs; subst. destruct fuel; [lia|]. simpl app.
       destruct (eol_head_sep crlf tl) as (h & X & E & _ & Hb). fold eol in E. rewrite E.
       cbn [sep_loop]. unfold sp1, space1_complete. cbn [span]. rewrite Hb. rewrite app_nil_r. reflexivity.
-    - simpl in Hs. destruct (sym_index al c) as [k|] eqn:Ek; [|discriminate].
-      destruct (sym_indices al cs) as [idx'|] eqn:Ei; [|discriminate]. inversion Hs; subst idx.
+    - cbn [sym_letters map snd] in Hs. fold (sym_letters cs) in Hs. simpl in Hs.
+      destruct (sym_index al c) as [k|] eqn:Ek; [|discriminate].
+      destruct (sym_indices al (sym_letters cs)) as [idx'|] eqn:Ei; [|discriminate]. inversion Hs; subst idx.
+      cbn [forallb fst] in Hseps. apply andb_true_iff in Hseps. destruct Hseps as [Hsep Hseps].
       destruct fuel; [lia|].
       rewrite sym_text_cons in *.
-      cbn [sep_loop]. rewrite (space1_sep c _ (sym_not_blank c k Ek)).
+      cbn [sep_loop]. rewrite (space1_sep sep c _ Hsep (sym_not_blank c k Ek)).
       assert (N : Nat.eqb (length (c :: sym_text cs ++ eol ++ tl))
                           (length (sep ++ c :: sym_text cs ++ eol ++ tl)) = false).
       { apply Nat.eqb_neq, neq_len_app. destruct (sep_ok_parts sep Hsep) as (Hne & _). exact Hne. }
       rewrite N. cbn [parse_symbol]. rewrite Ek.
-      rewrite (IH idx' fuel (k :: acc) tl eq_refl).
+      rewrite (IH idx' fuel (k :: acc) tl eq_refl Hseps).
       + simpl. rewrite <- app_assoc. reflexivity.
       + rewrite app_length in L. simpl in L. lia.
   Qed.
 
-  Lemma parse_alphabet_printed (po : bool) c cs idx tl :
-    sym_indices al (c :: cs) = Some idx ->
-    parse_alphabet sp1 al ("P" :: (if po then "O" else "0") :: sym_text (c :: cs) ++ eol ++ tl) = POk idx tl.
+  Lemma parse_alphabet_printed (po : bool) sep c cs idx tl :
+    sym_indices al (sym_letters ((sep, c) :: cs)) = Some idx ->
+    forallb (fun sc => sep_ok (fst sc)) ((sep, c) :: cs) = true ->
+    parse_alphabet sp1 al ("P" :: (if po then "O" else "0") :: sym_text ((sep, c) :: cs) ++ eol ++ tl) = POk idx tl.
   Proof.
-    intros Hs. simpl in Hs. destruct (sym_index al c) as [k|] eqn:Ek; [|discriminate].
-    destruct (sym_indices al cs) as [idx'|] eqn:Ei; [|discriminate]. inversion Hs; subst idx.
+    intros Hs Hseps. cbn [sym_letters map snd] in Hs. fold (sym_letters cs) in Hs. simpl in Hs.
+    destruct (sym_index al c) as [k|] eqn:Ek; [|discriminate].
+    destruct (sym_indices al (sym_letters cs)) as [idx'|] eqn:Ei; [|discriminate]. inversion Hs; subst idx.
+    cbn [forallb fst] in Hseps. apply andb_true_iff in Hseps. destruct Hseps as [Hsep Hseps].
     unfold parse_alphabet, delimited.
     assert (T : exists v, alt2 (tag (tg "P" "O")) (tag (tg "P" "0"))
-                            ("P" :: (if po then "O" else "0") :: sym_text (c :: cs) ++ eol ++ tl)
-                          = POk v (sym_text (c :: cs) ++ eol ++ tl)).
+                            ("P" :: (if po then "O" else "0") :: sym_text ((sep, c) :: cs) ++ eol ++ tl)
+                          = POk v (sym_text ((sep, c) :: cs) ++ eol ++ tl)).
     { destruct po; eexists; reflexivity. }
     destruct T as [v T]. rewrite T.
     cbn [pbind]. unfold preceded.
     rewrite sym_text_cons.
-    rewrite (space1_sep c _ (sym_not_blank c k Ek)). cbn [pbind].
+    rewrite (space1_sep sep c _ Hsep (sym_not_blank c k Ek)). cbn [pbind].
     unfold separated_list1. cbn [parse_symbol]. rewrite Ek.
-    rewrite (sep_loop_syms cs idx' _ [k] tl Ei); [|lia].
+    rewrite (sep_loop_syms cs idx' _ [k] tl Ei Hseps); [|lia].
     cbn [pbind rev app]. unfold eol. rewrite line_ending_eol. reflexivity.
   Qed.
 
   (* ---- count rows ---- *)
 
-  Definition rowtail (toks : list str) : str := flat_map (fun t => sep ++ t) toks.
+  Definition rowtail (toks : list (str * str)) : str := flat_map (fun st => fst st ++ snd st) toks.
   Definition elem : parser str := delimited space0 (parse_element) space0.
+  Definition tok_ok (st : str * str) : bool := sep_ok (fst st) && token_ok (snd st).
 
-  Lemma rowtail_cons t ts : rowtail (t :: ts) = sep ++ t ++ rowtail ts.
-  Proof. unfold rowtail. cbn [flat_map]. rewrite <- app_assoc. reflexivity. Qed.
+  Lemma rowtail_cons sep t ts : rowtail ((sep, t) :: ts) = sep ++ t ++ rowtail ts.
+  Proof. unfold rowtail. cbn [flat_map fst snd]. rewrite <- app_assoc. reflexivity. Qed.
 
   Lemma space0_block a r : forallb is_blank a = true -> head_sat (fun b => negb (is_blank b)) r ->
     space0 (a ++ r) = POk a r.
@@ -301,23 +305,24 @@ Section RT.
   (* the counts of a row, followed by Z (the row's tail and line ending): the blanks at the
      head of Z are eaten by the last element's trailing space0 *)
   Lemma count_toks : forall toks t0 lead h X,
-    token_ok t0 = true -> forallb token_ok toks = true -> forallb is_blank lead = true ->
+    token_ok t0 = true -> forallb tok_ok toks = true -> forallb is_blank lead = true ->
     is_sep h = true ->
     count_ elem (S (length toks)) (lead ++ t0 ++ rowtail toks ++ h :: X)
-    = POk (t0 :: toks) (snd (span is_blank (h :: X))).
+    = POk (t0 :: map snd toks) (snd (span is_blank (h :: X))).
   Proof.
-    destruct (sep_ok_parts sep Hsep) as (Hne & Hbl & hs & Xs & Es & Hhs).
-    induction toks as [|t1 toks IH]; intros t0 lead h X H0 Hts Hl Hh.
+    induction toks as [|[sep t1] toks IH]; intros t0 lead h X H0 Hts Hl Hh.
     - destruct (token_head_nonblank t0 H0) as (d & t' & E0 & Hb).
-      cbn [count_ length rowtail flat_map app]. unfold elem at 1, delimited.
+      cbn [count_ length rowtail flat_map app map]. unfold elem at 1, delimited.
       rewrite (space0_block lead (t0 ++ h :: X) Hl); [|rewrite E0; simpl; rewrite Hb; reflexivity].
       cbn [pbind]. unfold parse_element. rewrite (float_token_printed t0 h X H0 Hh).
       cbn [pbind]. unfold space0 at 1. destruct (span is_blank (h :: X)) as [p r]. reflexivity.
-    - simpl in Hts. apply andb_true_iff in Hts. destruct Hts as [H1 Hts].
+    - cbn [forallb] in Hts. apply andb_true_iff in Hts. destruct Hts as [H1 Hts].
+      unfold tok_ok in H1. cbn [fst snd] in H1. apply andb_true_iff in H1. destruct H1 as [Hsep H1].
+      destruct (sep_ok_parts sep Hsep) as (Hne & Hbl & hs & Xs & Es & Hhs).
       destruct (token_head_nonblank t0 H0) as (d & t' & E0 & Hb).
       destruct (token_head_nonblank t1 H1) as (d1 & t1' & E1 & Hb1).
       rewrite rowtail_cons.
-      change (length (t1 :: toks)) with (S (length toks)).
+      change (length ((sep, t1) :: toks)) with (S (length toks)).
       remember (S (length toks)) as n eqn:En.
       cbn [count_]. unfold elem at 1, delimited.
       rewrite (space0_block lead _ Hl); [|rewrite E0; simpl; rewrite Hb; reflexivity].
@@ -332,7 +337,7 @@ Section RT.
       pose proof (IH t1 [] h X H1 Hts eq_refl Hh) as K. cbn [app] in K. rewrite K. reflexivity.
   Qed.
 
-  Definition row_text (r : prow) : str := print_row eol sep r.
+  Definition row_text (r : prow) : str := print_row eol r.
 
   Lemma parse_row_unfold k i :
     parse_row k i = pbind (u32 i) (fun _ r => pbind (count_ elem k r)
@@ -348,31 +353,32 @@ Section RT.
   Qed.
 
   Lemma parse_row_printed k r tl : row_ok k r = true -> 0 < k ->
-    parse_row k (row_text r ++ tl) = POk (pr_toks r) tl.
+    parse_row k (row_text r ++ tl) = POk (row_toks r) tl.
   Proof.
     unfold row_ok. intros H Hk. apply andb_true_iff in H. destruct H as [H Htail].
     apply andb_true_iff in H. destruct H as [H Htoks].
     apply andb_true_iff in H. destruct H as [Hlab Hlen]. apply Nat.eqb_eq in Hlen.
-    destruct r as [lab toks tail]. cbn [pr_label pr_toks pr_tail] in *.
-    destruct toks as [|t0 toks]; [simpl in Hlen; lia|].
-    simpl in Htoks. apply andb_true_iff in Htoks. destruct Htoks as [H0 Hts].
+    destruct r as [lab toks tail]. unfold row_toks. cbn [pr_label pr_toks pr_tail] in *.
+    destruct toks as [|[sep t0] toks]; [simpl in Hlen; lia|].
+    cbn [forallb] in Htoks. apply andb_true_iff in Htoks. destruct Htoks as [H0 Hts].
+    cbn [fst snd] in H0. apply andb_true_iff in H0. destruct H0 as [Hsep H0].
     destruct (sep_ok_parts sep Hsep) as (Hne & Hbl & hs & Xs & Es & Hhs).
     destruct (tail_ok_parts tail Htail) as (T1 & T2 & T3).
     unfold row_text, print_row. cbn [pr_label pr_toks pr_tail].
-    fold (rowtail (t0 :: toks)). rewrite rowtail_cons.
+    fold (rowtail ((sep, t0) :: toks)). rewrite rowtail_cons.
     rewrite <- !app_assoc.
     assert (Hd : head_sat (fun b => negb (is_digit b)) (sep ++ t0 ++ rowtail toks ++ tail ++ eol ++ tl)).
     { rewrite Es. simpl. destruct (sep_facts hs Hhs) as (Hd & _). rewrite Hd. reflexivity. }
     destruct (label_ok_u32 lab _ Hlab Hd) as [v Hv].
     rewrite parse_row_unfold, Hv. cbn [pbind].
-    subst k. change (length (t0 :: toks)) with (S (length toks)).
+    subst k. change (length ((sep, t0) :: toks)) with (S (length toks)).
     (* the text after the last count *)
     assert (Z : exists h X, tail ++ eol ++ tl = h :: X /\ is_sep h = true).
     { destruct T3 as [->|(h & X & -> & Hb)].
       - destruct (eol_head_sep crlf tl) as (h & X & E & Hs & _). exists h, X. auto.
       - exists h, (X ++ eol ++ tl). split; [reflexivity|apply blank_is_sep; exact Hb]. }
     destruct Z as (h & X & EZ & HZ). rewrite EZ.
-    rewrite (count_toks toks t0 sep h X H0 Hts Hbl HZ). cbn [pbind]. rewrite <- EZ.
+    rewrite (count_toks toks t0 sep h X H0 Hts Hbl HZ). cbn [pbind map snd]. rewrite <- EZ.
     assert (SP : snd (span is_blank (tail ++ eol ++ tl)) = snd (span is_blank tail) ++ eol ++ tl).
     { rewrite span_app_stop; [reflexivity|].
       destruct (eol_head_sep crlf tl) as (h' & X' & E' & _ & Hb'). fold eol in E'. rewrite E'. exact Hb'. }
@@ -397,7 +403,7 @@ Section RT.
     forallb (row_ok k) rows = true ->
     parse_row k tl = PError ->
     length (rows_text rows ++ tl) < fuel ->
-    many_loop (parse_row k) fuel (rows_text rows ++ tl) acc = POk (rev acc ++ map pr_toks rows) tl.
+    many_loop (parse_row k) fuel (rows_text rows ++ tl) acc = POk (rev acc ++ map row_toks rows) tl.
   Proof.
     intros Hk. induction rows as [|r rows IH]; intros fuel acc tl Hr Htl L.
     - destruct fuel; [lia|]. simpl. rewrite Htl, app_nil_r. reflexivity.
@@ -408,19 +414,19 @@ Section RT.
       assert (Hne : row_text r <> []) by (apply row_text_nonempty, (row_ok_label k), Hr).
       assert (N : Nat.eqb (length (rows_text rows ++ tl)) (length (row_text r ++ rows_text rows ++ tl)) = false)
         by (apply Nat.eqb_neq, neq_len_app, Hne).
-      rewrite N. rewrite (IH fuel (pr_toks r :: acc) tl Hrs Htl).
+      rewrite N. rewrite (IH fuel (row_toks r :: acc) tl Hrs Htl).
       + simpl. rewrite <- app_assoc. reflexivity.
       + rewrite (app_length (row_text r)) in L. destruct (row_text r); [congruence|]. cbn [length] in L. lia.
   Qed.
 
   Lemma many1_rows k r rows tl : 0 < k ->
     forallb (row_ok k) (r :: rows) = true -> parse_row k tl = PError ->
-    many1 (parse_row k) (rows_text (r :: rows) ++ tl) = POk (map pr_toks (r :: rows)) tl.
+    many1 (parse_row k) (rows_text (r :: rows) ++ tl) = POk (map row_toks (r :: rows)) tl.
   Proof.
     intros Hk Hr Htl. simpl in Hr. apply andb_true_iff in Hr. destruct Hr as [Hr Hrs].
     change (rows_text (r :: rows)) with (row_text r ++ rows_text rows). rewrite <- app_assoc.
     unfold many1. rewrite (parse_row_printed k r _ Hr Hk).
-    rewrite (many_loop_rows k Hk rows _ [pr_toks r] tl Hrs Htl); [reflexivity|lia].
+    rewrite (many_loop_rows k Hk rows _ [row_toks r] tl Hrs Htl); [reflexivity|lia].
   Qed.
 
   Lemma parse_row_xx k tl : parse_row k ("X" :: "X" :: tl) = PError.
@@ -517,23 +523,25 @@ Section RT.
   Lemma parse_row_nondigit k h X : is_digit h = false -> parse_row k (h :: X) = PError.
   Proof. intros H. rewrite parse_row_unfold. unfold u32, uint. cbn [uint_loop]. rewrite H. reflexivity. Qed.
 
-  Lemma loop_matrix f (po : bool) c cs idx r0 rows h X r :
-    sym_indices al (c :: cs) = Some idx ->
-    forallb (row_ok (length (c :: cs))) (r0 :: rows) = true ->
+  Lemma loop_matrix f (po : bool) sep c cs idx r0 rows h X r :
+    sym_indices al (sym_letters ((sep, c) :: cs)) = Some idx ->
+    forallb (fun sc => sep_ok (fst sc)) ((sep, c) :: cs) = true ->
+    forallb (row_ok (length ((sep, c) :: cs))) (r0 :: rows) = true ->
     is_digit h = false ->
-    loop (S f) ("P" :: (if po then "O" else "0") :: sym_text (c :: cs) ++ eol ++
+    loop (S f) ("P" :: (if po then "O" else "0") :: sym_text ((sep, c) :: cs) ++ eol ++
                 rows_text (r0 :: rows) ++ h :: X) r =
-    loop f (h :: X) (set_data (build_matrix al idx (map pr_toks (r0 :: rows))) r).
+    loop f (h :: X) (set_data (build_matrix al idx (map row_toks (r0 :: rows))) r).
   Proof.
-    intros Hs Hr Hh. cbn [record_loop]. rewrite (parse_tag_known "P" _ TP0 _ (classify_p0 po)). cbn [pbind fst snd].
-    rewrite (parse_alphabet_printed po c cs idx _ Hs). cbn [pbind].
-    assert (Hlen : length idx = length (c :: cs)).
-    { clear -Hs. revert idx Hs. generalize (c :: cs). induction l as [|x l IH]; intros idx H; simpl in H.
+    intros Hs Hseps Hr Hh. cbn [record_loop]. rewrite (parse_tag_known "P" _ TP0 _ (classify_p0 po)). cbn [pbind fst snd].
+    rewrite (parse_alphabet_printed po sep c cs idx _ Hs Hseps). cbn [pbind].
+    assert (Hlen : length idx = length ((sep, c) :: cs)).
+    { clear -Hs. revert idx Hs. generalize ((sep, c) :: cs). induction l as [|x l IH]; intros idx H; simpl in H.
       - inversion H; reflexivity.
-      - destruct (sym_index al x); [|discriminate]. destruct (sym_indices al l) as [i'|]; [|discriminate].
+      - destruct (sym_index al (snd x)); [|discriminate].
+        fold (sym_letters l) in H. destruct (sym_indices al (sym_letters l)) as [i'|]; [|discriminate].
         inversion H; subst. simpl. rewrite (IH i' eq_refl). reflexivity. }
     rewrite Hlen.
-    rewrite (many1_rows (length (c :: cs)) r0 rows (h :: X)); [reflexivity|simpl; lia|exact Hr|].
+    rewrite (many1_rows (length ((sep, c) :: cs)) r0 rows (h :: X)); [reflexivity|simpl; lia|exact Hr|].
     apply parse_row_nondigit. exact Hh.
   Qed.
 End RT.
@@ -748,7 +756,7 @@ Section RT2.
      stops there *)
   Lemma item_head eol' it tl : exists h X, print_item eol' it ++ tl = h :: X /\ is_digit h = false.
   Proof.
-    destruct it as [num xref lines|k pad v|k v| |t ts|d m y c au|po sep syms rows];
+    destruct it as [num xref lines|k pad v|k v| |t ts|d m y c au|po syms rows];
       cbn [print_item app xx_line flat_map].
     - eexists _, _; split; reflexivity.
     - destruct k; eexists _, _; split; reflexivity.
@@ -770,14 +778,14 @@ Section RT2.
      of a reference block stops there *)
   Lemma item_stop2 eol' it tl : stop2 (print_item eol' it ++ tl).
   Proof.
-    destruct it as [num xref lines|k pad v|k v| |t ts|d m y c au|po sep syms rows];
+    destruct it as [num xref lines|k pad v|k v| |t ts|d m y c au|po syms rows];
       cbn [print_item app xx_line flat_map];
       try (destruct k); try (destruct po); repeat split.
   Qed.
 
   Lemma item_stopcc eol' it tl : is_cc it = false -> stopcc (print_item eol' it ++ tl).
   Proof.
-    destruct it as [num xref lines|k pad v|k v| |t ts|d m y c au|po sep syms rows]; intros H; try discriminate;
+    destruct it as [num xref lines|k pad v|k v| |t ts|d m y c au|po syms rows]; intros H; try discriminate;
       cbn [print_item app xx_line]; try (destruct k); try (destruct po); reflexivity.
   Qed.
 
@@ -857,15 +865,17 @@ Section RT2.
     reflexivity.
   Qed.
 
-  Lemma item_ok_matrix po sep syms rows : item_ok al (IMatrix po sep syms rows) = true ->
-    exists c cs idx r0 rows', syms = c :: cs /\ sym_indices al syms = Some idx /\ rows = r0 :: rows' /\
-      sep_ok sep = true /\ nodupb syms = true /\ forallb (row_ok (length syms)) rows = true.
+  Lemma item_ok_matrix po syms rows : item_ok al (IMatrix po syms rows) = true ->
+    exists sep c cs idx r0 rows', syms = (sep, c) :: cs /\ sym_indices al (sym_letters syms) = Some idx /\
+      rows = r0 :: rows' /\ forallb (fun sc => sep_ok (fst sc)) syms = true /\
+      nodupb (sym_letters syms) = true /\ forallb (row_ok (length syms)) rows = true.
   Proof.
     cbn [item_ok]. intros H. apply andb_true_iff in H. destruct H as [H Hrows].
     apply andb_true_iff in H. destruct H as [H Hne]. apply andb_true_iff in H. destruct H as [H Hsep].
     apply andb_true_iff in H. destruct H as [H Hnd]. apply andb_true_iff in H. destruct H as [Hs Hidx].
-    destruct syms as [|c cs]; [discriminate|]. destruct (sym_indices al (c :: cs)) as [idx|] eqn:Ei; [|discriminate].
-    destruct rows as [|r0 rows']; [discriminate|]. exists c, cs, idx, r0, rows'. repeat split; assumption.
+    destruct syms as [|[sep c] cs]; [discriminate|].
+    destruct (sym_indices al (sym_letters ((sep, c) :: cs))) as [idx|] eqn:Ei; [|discriminate].
+    destruct rows as [|r0 rows']; [discriminate|]. exists sep, c, cs, idx, r0, rows'. repeat split; assumption.
   Qed.
 
   (* one line (or matrix block) of the record *)
@@ -875,7 +885,7 @@ Section RT2.
     exists F', length (h :: X) < F' /\ loop F (print_item eol it ++ h :: X) r = loop F' (h :: X) (apply_item al r it).
   Proof.
     intros Hok Hh Hst Hcc L. pose proof eol_length as E.
-    destruct it as [num xref lines|k pad v|k v| |t ts|d m y c au|po sep syms rows]; cbn [apply_item] in *.
+    destruct it as [num xref lines|k pad v|k v| |t ts|d m y c au|po syms rows]; cbn [apply_item] in *.
     - cbn [item_ok] in Hok. apply andb_true_iff in Hok. destruct Hok as [Hok Hl].
       apply andb_true_iff in Hok. destruct Hok as [Hn Hx].
       destruct F as [|F]; [lia|]. exists F. split.
@@ -903,12 +913,12 @@ Section RT2.
       + cbn [print_item] in L. cbn [app length] in L. rewrite !app_length in L. cbn [length] in *. lia.
       + apply loop_dt; assumption.
     - cbn [print_item] in *.
-      destruct (item_ok_matrix po sep syms rows Hok) as (c & cs & idx & r0 & rows' & -> & Ei & -> & Hsep & _ & Hrows).
-      rewrite Ei. fold (sym_text sep (c :: cs)) in *. fold (row_text crlf sep) in *.
-      fold (rows_text crlf sep (r0 :: rows')) in *.
+      destruct (item_ok_matrix po syms rows Hok) as (sep & c & cs & idx & r0 & rows' & -> & Ei & -> & Hseps & _ & Hrows).
+      rewrite Ei. fold (sym_text ((sep, c) :: cs)) in *. fold (row_text crlf) in *.
+      fold (rows_text crlf (r0 :: rows')) in *.
       cbn [app] in *. rewrite <- !app_assoc in *. cbn [length] in L. rewrite !app_length in L.
       destruct F as [|F]; [lia|]. exists F. split; [cbn [length] in *; lia|].
-      unfold eol. apply (loop_matrix al crlf sep Hsep); assumption.
+      unfold eol. apply (loop_matrix al crlf); assumption.
   Qed.
 
   Lemma loop_items : forall (items : prec) F term r,
